@@ -1,6 +1,7 @@
 """C03 -- query expressions mean what was built: no precedence capture, NULL logic kept."""
 import itertools
 import re
+from fractions import Fraction
 
 PROP = 'C03'
 PROPS_VO = 'Props/C03.vo'
@@ -12,7 +13,7 @@ From Lib Require Import ExprSyntax CorrLib. From Gen Require Import Expr. From M
 From Corr Require Import C03.
 Definition nn (i : N) := NField (Col TyNum i). Definition ns (i : N) := NField (Col TyStr i).
 Definition nb (i : N) := NField (Col TyBool i).
-Definition ki (z : Z) := NAtom (AInt z). Definition ks (s : string) := NAtom (AStr (codes s)).
+Definition kf (h : Z) := NAtom (AFlo h). Definition ki (z : Z) := NAtom (AInt z). Definition ks (s : string) := NAtom (AStr (codes s)).
 Definition kn := NAtom ANone.
 Definition ai (z : Z) := NAtom (AInt z). Definition as_ (s : string) := NAtom (AStr (codes s)).
 Definition vi (z : Z) := VInt z. Definition vs (s : string) := VStr (codes s).
@@ -44,11 +45,13 @@ TRUSTED_BASE = [
     'literals tokenised, spacing checked against the uniform printer); Lib/ExprSyntax.v mk_sqlop / head_is (a text '
     'starts with "(" iff its first token is TLP)',
     'modelled, not verified: Python operator dispatch (forward method, else reflected / mirrored comparison; '
+    'repr(float) of the whole / half values used as float constants ("n.0" / "n.5"); '
     'Model/Expr.v py_binop_with), repr(int), the column validators\' from_python being the identity on well-typed '
     'constants (SQLObjectField.__eq__), sqlrepr() dispatch by __sqlrepr__ / converter table',
     'reference SQL semantics: Model/Expr.v parse (precedence climbing, unary +/- tightest, left associative; the '
     'theorem holds for every level assignment), eval3 (Kleene logic, comparison with NULL, IN over lists with NULL, '
-    'x IN () FALSE, integer / and % truncating with NULL on a zero divisor) -- validated against the bundled sqlite '
+    'x IN () FALSE, sqlite\'s typing: INTEGER/INTEGER truncating, anything with a REAL real, % casting to INTEGER, NULL on a '
+    'zero divisor; REAL values as exact rationals, the generator keeps them exactly representable) -- validated against the bundled sqlite '
     'only; other engines by documentation; an empty IN list "IN ()" is a syntax error outside sqlite (not judged)',
     'character level: C03_text_parse proves that the reference lexer reads the model text back into the tokens; that '
     'the model text IS the real text is checked by exact text equality (Tie B), that real engines\' lexers agree with '
@@ -64,6 +67,9 @@ STRDOM = [None, '', 'a', 'ab', 'b', 'B', "o'k"]
 BOOLDOM = [None, 0, 1]
 STRCONST = ['', 'a', 'ab', 'b', 'B', "o'k", '(x', 'a)', 'NULL', '1', 'a b', '%_', "''", 'AND']
 NCOL = {'n': 3, 's': 2, 'b': 2}
+# float constants: whole and half values (exact doubles, repr 'n.0' / 'n.5')
+FLOATS = [2.0, -2.0, 10.0, 0.5, 1.5, 2.5, -0.5, 4.0, 8.0]
+POW2DOM = [None, -4, -2, -1, 0, 1, 2, 4, 8]
 ARITH = ['+', '-', '*', '/', '%']
 CMP = ['==', '!=', '<', '<=', '>', '>=']
 LIMIT = 2 ** 31
@@ -174,9 +180,28 @@ def of_tv(t):
 
 
 def chk(v):
+    """values stay where sqlite computes exactly: |v| <= 2^31; a REAL (Fraction) has a power-of-two denominator
+    <= 2^16, so every double operation on it is exact"""
     if isinstance(v, int) and abs(v) > LIMIT:
         raise Overflow()
+    if isinstance(v, Fraction):
+        d = v.denominator
+        if abs(v) > LIMIT or d > 65536 or d & (d - 1):
+            raise Overflow()
     return v
+
+
+def lit(v):
+    """a constant as a value: a float is a REAL"""
+    return Fraction(v) if isinstance(v, float) else v
+
+
+def trunc(q):
+    """CAST(q AS INTEGER)"""
+    if isinstance(q, int):
+        return q
+    n = abs(q.numerator) // q.denominator
+    return n if q >= 0 else -n
 
 
 def trunc_div(a, b):
@@ -189,7 +214,7 @@ def in3(x, lst):
         return False
     if x is None:
         return None
-    if any(y is not None and type(y) is type(x) and y == x for y in lst):
+    if any(y is not None and isinstance(y, str) == isinstance(x, str) and y == x for y in lst):
         return True
     if any(y is None for y in lst):
         return None
@@ -201,7 +226,7 @@ def ev(t, row, subs):
     if k == 'col':
         return row.get('%s%d' % (t[1], t[2]))
     if k == 'const':
-        return t[1]
+        return lit(t[1])
     if k == 'bin':
         op, a, b = t[1], t[2], t[3]
         if op in ('==', '!=') and (a == ['const', None] or b == ['const', None]):
@@ -222,11 +247,18 @@ def ev(t, row, subs):
                 return chk(x - y)
             if op == '*':
                 return chk(x * y)
-            if y == 0:
-                return None
+            # sqlite's typing: INTEGER op INTEGER is integer arithmetic; with a REAL operand / is real and
+            # % casts both operands to INTEGER (and gives a REAL)
+            real = isinstance(x, Fraction) or isinstance(y, Fraction)
             if op == '/':
-                return trunc_div(x, y)
-            return x - y * trunc_div(x, y)
+                if y == 0:
+                    return None
+                return chk(Fraction(x) / Fraction(y)) if real else trunc_div(x, y)
+            a, b = trunc(x), trunc(y)
+            if b == 0:
+                return None
+            r = a - b * trunc_div(a, b)
+            return Fraction(r) if real else r
         return of_tv({'==': x == y, '!=': x != y, '<': x < y, '<=': x <= y, '>': x > y, '>=': x >= y}[op])
     if k == 'un':
         x = ev(t[2], row, subs)
@@ -251,7 +283,7 @@ def ev(t, row, subs):
         return of_tv(ev(t[1], row, subs) is not None)
     if k in ('IN', 'NOTIN'):
         # every member takes part, constant or expression
-        vals = [ev(m, row, subs) if isinstance(m, list) else m for m in t[2]]
+        vals = [ev(m, row, subs) if isinstance(m, list) else lit(m) for m in t[2]]
         r = in3(ev(t[1], row, subs), vals)
         return of_tv(r if k == 'IN' else not3(r))
     if k == 'INSUB':
@@ -293,6 +325,8 @@ class Gen:
         if r.random() < 0.07:
             return ['const', None]
         if ty == 'n':
+            if r.random() < 0.18:
+                return ['const', r.choice(FLOATS)]
             return ['const', r.choice([-7, -3, -2, -1, 0, 1, 2, 3, 5, 10])]
         return ['const', r.choice(STRCONST)]
 
@@ -308,7 +342,7 @@ class Gen:
             elif r.random() < 0.15:
                 out.append(None)
             elif ty == 'n':
-                out.append(r.choice([-3, -2, -1, 0, 1, 2, 3, 7]))
+                out.append(r.choice(FLOATS) if r.random() < 0.12 else r.choice([-3, -2, -1, 0, 1, 2, 3, 7]))
             else:
                 out.append(r.choice(STRCONST))
         return out
@@ -324,8 +358,13 @@ class Gen:
             k = r.random()
             if k < 0.12:
                 return ['un', r.choice(['-', '-', '+']), self.expr('n', d - 1)]
+            op = r.choice(ARITH)
+            if op == '/' and r.random() < 0.4:
+                # a float constant dividing / divided by an integer expression
+                e, c = self.expr('n', d - 1), ['const', r.choice(FLOATS)]
+                return ['bin', '/', e, c] if r.random() < 0.6 else ['bin', '/', c, e]
             a, b = self.pair('n', d - 1)
-            return ['bin', r.choice(ARITH), a, b]
+            return ['bin', op, a, b]
         k = r.random()
         if k < 0.28:
             t = r.choice(['n', 'n', 'n', 's', 'b'])
@@ -374,11 +413,11 @@ class Gen:
         return (a, b) if r.random() < 0.5 else (b, a)
 
 
-def make_rows(rng, tree, maxrows=14):
+def make_rows(rng, tree, maxrows=14, numdom=None):
     used = sorted(cols_of(tree))
     doms = []
     for ty, i in used:
-        dom = {'n': NUMDOM, 's': STRDOM, 'b': BOOLDOM}[ty]
+        dom = {'n': numdom or NUMDOM, 's': STRDOM, 'b': BOOLDOM}[ty]
         k = min(len(dom), rng.choice([2, 3, 3, 4]))
         vals = [None] + rng.sample(dom[1:], k - 1)
         doms.append(vals)
@@ -399,15 +438,39 @@ def make_subs(rng, tree):
     return subs
 
 
+def realish(t):
+    """evaluates to a REAL on sqlite (contains a float constant in its arithmetic)"""
+    if t[0] == 'const':
+        return isinstance(t[1], float)
+    if t[0] == 'bin' and t[1] in ARITH:
+        return realish(t[2]) or realish(t[3])
+    if t[0] == 'un' and t[1] in '-+':
+        return realish(t[2])
+    return False
+
+
+def has_real_rmod(t):
+    """const % expr renders MOD(const, expr); sqlite's MOD() is fmod, not the integer remainder of `%`:
+    with a fractional operand the two differ, so such trees are left out (as are MOD() results under '/')"""
+    if t[0] == 'bin' and t[1] == '%' and is_const(t[2]) and (realish(t[2]) or realish(t[3])):
+        return True
+    return any(has_real_rmod(x) for x in children(t))
+
+
 def finish(rng, tree, typed=True):
     c = {'e': tree, 'typed': typed, 'rows': make_rows(rng, tree), 'subs': make_subs(rng, tree)}
     if typed:
-        if has_rmod_under_div(tree):
+        if has_rmod_under_div(tree) or has_real_rmod(tree) or field_const_mismatch(tree):
             return None
         try:
             expected_ids(c)
         except Overflow:
-            return None
+            # a quotient that is not an exact double, mostly: try again with powers of two in the columns
+            c['rows'] = make_rows(rng, tree, numdom=POW2DOM)
+            try:
+                expected_ids(c)
+            except Overflow:
+                return None
     return c
 
 
@@ -429,6 +492,8 @@ def operand_kinds():
     b0, b1 = ['col', 'b', 0], ['col', 'b', 1]
     return [
         ('n', n0), ('n', ['const', 3]), ('n', ['const', -4]), ('n', ['const', None]),
+        ('n', ['const', 2.0]), ('n', ['const', -0.5]), ('n', ['bin', '/', n0, ['const', 2.0]]),
+        ('n', ['bin', '/', ['const', 10.0], n1]),
         ('n', ['bin', '+', n0, n1]), ('n', ['bin', '-', ['const', 1], n1]), ('n', ['bin', '*', n0, ['const', -2]]),
         ('n', ['bin', '/', n1, ['const', 2]]), ('n', ['bin', '%', n0, ['const', 3]]),
         ('n', ['bin', '%', ['const', 7], n1]), ('n', ['un', '-', n0]), ('n', ['un', '+', n1]),
@@ -591,6 +656,12 @@ def corpus():
         ['IN', n0, [n1, n2]], ['IN', n0, [['bin', '+', n1, ['const', 1]], 7]],
         ['IN', n0, [7, ['bin', '+', n1, ['const', 1]]]], ['NOTIN', n0, [n2, 5, n1]],
         ['NOTIN', n0, [n1, None, ['un', '-', n2]]], ['IN', n0, [1, 3, 1, 3]],
+    ]
+    trees += [  # float constants keep their REAL typing (seed c03_integral_float_rendered_as_int)
+        ['bin', '>', ['bin', '/', n0, ['const', 2.0]], ['const', 1]],
+        ['bin', '==', ['bin', '/', ['const', 10.0], n1], ['const', 2.5]],
+        ['IN', ['bin', '/', n0, ['const', -2.0]], [-1.5, ['bin', '*', n1, ['const', 0.5]], None]],
+        ['bin', '<=', ['bin', '%', ['bin', '+', n0, ['const', 2.5]], ['const', 2]], ['bin', '-', n1, ['const', 0.5]]],
     ]
     out = [dict(WITNESS)]
     for t in trees:
@@ -756,9 +827,17 @@ def coq_str(s):
     return '"%s"%%string' % s.replace('"', '""')
 
 
+def halves(v):
+    h = v * 2
+    assert h == int(h), v
+    return int(h)
+
+
 def coq_atom(v):
     if v is None:
         return 'kn'
+    if isinstance(v, float):
+        return '(kf %s)' % zlit(halves(v))
     if isinstance(v, int):
         return '(ai %s)' % zlit(v)
     return '(as_ %s)' % coq_str(v)
@@ -775,7 +854,8 @@ def coq_tree(t):
         return '(n%s %d)' % (t[1], t[2])
     if k == 'const':
         v = t[1]
-        return 'kn' if v is None else '(ki %s)' % zlit(v) if isinstance(v, int) else '(ks %s)' % coq_str(v)
+        return coq_atom(v) if v is None or isinstance(v, float) else '(ki %s)' % zlit(v) if isinstance(v, int) \
+            else '(ks %s)' % coq_str(v)
     if k == 'bin':
         return '(B %s %s %s)' % (PYOP[t[1]], coq_tree(t[2]), coq_tree(t[3]))
     if k == 'un':
@@ -823,7 +903,7 @@ def coq_case(c, o):
 
 
 # ---------------------------------------------------------------- oracle (the property itself, on the implementation)
-_LEX = re.compile(r"\s*(<=|>=|<>|[()=<>,+\-*/%]|'(?:[^']|'')*'|[A-Za-z_][A-Za-z0-9_.]*|\d+)")
+_LEX = re.compile(r"\s*(<=|>=|<>|[()=<>,+\-*/%]|'(?:[^']|'')*'|[A-Za-z_][A-Za-z0-9_.]*|\d+(?:\.\d+)?)")
 
 
 def lex(text):
